@@ -159,7 +159,7 @@ def build_family(fam, workdir):
         compile_gb(os.path.join(VERIF, 'stubs', s), out, fl)
         objs.append(out)
     hout = os.path.join(fdir, 'harness.gb')
-    compile_gb(os.path.join(VERIF, 'harness', fam.harness), hout, fl + ['-DVERIF_ENTRIES="entries.inc"', '-I' + fdir])
+    compile_gb(fam.harness if os.path.isabs(fam.harness) else os.path.join(VERIF, 'harness', fam.harness), hout, fl + ['-DVERIF_ENTRIES="entries.inc"', '-I' + fdir])
     objs.append(hout)
     gb = os.path.join(fdir, 'fam.gb')
     rc, o = sh(['goto-cc', '-o', gb] + objs)
@@ -579,7 +579,7 @@ def native_build(fam, entry, outdir):
             return None, 'native compile failed for %s: %s' % (s, out[-1500:])
         objs.append(ob)
     ob = os.path.join(outdir, 'nh.o')
-    rc, out = sh(cc + ['-c', '-o', ob, os.path.join(VERIF, 'harness', fam.harness), '-DVERIF_ENTRIES="entries.inc"', '-I' + outdir] + fl)
+    rc, out = sh(cc + ['-c', '-o', ob, fam.harness if os.path.isabs(fam.harness) else os.path.join(VERIF, 'harness', fam.harness), '-DVERIF_ENTRIES="entries.inc"', '-I' + outdir] + fl)
     if rc != 0:
         return None, 'native compile failed for harness: %s' % out[-1500:]
     objs.append(ob)
@@ -795,6 +795,12 @@ def main():
             write_evidence(pid, tier, seed, mod, fams, obls, wall, len(violations))
     finally:
         shutil.rmtree(workdir, ignore_errors=True)
+        for f in fams:
+            if getattr(f, 'cleanup', None):
+                try:
+                    os.unlink(f.cleanup)
+                except OSError:
+                    pass
     return rc
 
 
